@@ -88,11 +88,30 @@ OpGet(k)      == /\ Anytime /\ StepQ("get", <<k>>, Lookup(a, k))
 OpHasKey(k)   == /\ Plain /\ StepQ("has_key", <<k>>, Has(a, k))
 OpHasValue(v) == /\ it = NIL /\ StepQ("has_value", <<v>>, \E k \in Keys : a[k] = v)
 OpCount       == /\ Plain /\ StepQ("count", <<>>, Size(a))
-\* C: w = TRUE: the caller supplies a list already holding one element (0, resp. the pair <<0,0>>); the listing is
-\* appended to it and that same list is returned.  w = FALSE: NULL is passed and a new list comes back.
-OpGetKeys(w)   == /\ Plain /\ StepQ("get_keys", <<w>>, (IF w THEN <<0>> ELSE <<>>) \o KeysAsc(a))
-OpGetValues(w) == /\ Plain /\ StepQ("get_values", <<w>>, (IF w THEN <<0>> ELSE <<>>) \o ValsAsc(a))
-OpGetPairs(w)  == /\ Plain /\ StepQ("get_pairs", <<w>>, (IF w THEN << <<0, 0>> >> ELSE <<>>) \o PairsAsc(a))
+\* C: the listing calls append to a caller-supplied destination list and return that same list, or create a list when NULL
+\* is passed.  The destination is described by three arguments:
+\*   np   - NODEST: NULL is passed;  0..3: the caller passes its own list which already holds np entries with the
+\*          distinguishable values 1001, 1002, 1003 (for get_pairs the pairs <<1001,1001>>, ...)
+\*   dc   - the LIST class of the caller's list (1 array, 2 linked_list, 3 dlinked_list; 0 with NODEST); it is independent
+\*          of the map's class and must not matter
+\*   reps - 1: one call;  2: the call is made twice in a row, the second time into the list the first one returned
+\* S: prior entries unchanged and in order, followed by the listing in ascending key order (once per call).
+NODEST     == -1
+PriorCount == 0 .. 3
+DestClass  == 1 .. 3
+Reps       == 1 .. 2
+DestOK(np, dc, reps) == /\ reps \in Reps
+                        /\ \/ np = NODEST /\ dc = 0
+                           \/ np \in PriorCount /\ dc \in DestClass /\ ~bl      \* model bound: own lists only while no copy is live
+Prior(np)      == [i \in 1 .. (IF np = NODEST THEN 0 ELSE np) |-> 1000 + i]
+PriorPairs(np) == [i \in 1 .. (IF np = NODEST THEN 0 ELSE np) |-> <<1000 + i, 1000 + i>>]
+Listed(prior, l, reps) == prior \o l \o (IF reps = 2 THEN l ELSE <<>>)
+OpGetKeys(np, dc, reps)   == /\ Plain /\ DestOK(np, dc, reps)
+                             /\ StepQ("get_keys", <<np, dc, reps>>, Listed(Prior(np), KeysAsc(a), reps))
+OpGetValues(np, dc, reps) == /\ Plain /\ DestOK(np, dc, reps)
+                             /\ StepQ("get_values", <<np, dc, reps>>, Listed(Prior(np), ValsAsc(a), reps))
+OpGetPairs(np, dc, reps)  == /\ Plain /\ DestOK(np, dc, reps)
+                             /\ StepQ("get_pairs", <<np, dc, reps>>, Listed(PriorPairs(np), PairsAsc(a), reps))
 
 (* iterator over A: yields the pairs in ascending key order *)
 OpIterNew     == /\ Plain /\ ~bl /\ Step("iter_new", <<>>, TRUE, a, b, bl, 0, held)
@@ -118,7 +137,8 @@ Init == a = EmptyMap /\ b = EmptyMap /\ bl = FALSE /\ it = NIL /\ held = 0
 Next == \/ \E k \in Keys, v \in Vals : OpSet(k, v) \/ OpSetPair(k, v) \/ OpSetKeep(k, v) \/ OpBSet(k, v)
         \/ \E k \in ProbeKeys : OpRemove(k) \/ OpGet(k) \/ OpHasKey(k) \/ OpBRemove(k) \/ OpBGet(k)
         \/ \E v \in ProbeVals : OpHasValue(v)
-        \/ \E w \in BOOLEAN : OpGetKeys(w) \/ OpGetValues(w) \/ OpGetPairs(w)
+        \/ \E np \in {NODEST} \cup PriorCount, dc \in {0} \cup DestClass, reps \in Reps :
+               OpGetKeys(np, dc, reps) \/ OpGetValues(np, dc, reps) \/ OpGetPairs(np, dc, reps)
         \/ OpCallerMutates \/ OpCallerDeletes \/ OpDone \/ OpCount
         \/ OpIterNew \/ OpIterHasNext \/ OpIterNext \/ OpIterDel
         \/ OpDup \/ OpDelB \/ OpAdopt
